@@ -13,9 +13,20 @@ Real SQLite with the real Logica UDFs does all the work; the proxy
 No real sleeps anywhere.
 """
 import os
+import re
 import sqlite3
+import traceback
+import weakref
 
 from lsim import core
+
+# The world the statements of the running simulated run are booked to.  A connection that the
+# system under test keeps beyond one run (a process-wide connection, say) is a proxy created
+# under an earlier world; its statements belong to the run that issues them.
+CURRENT_WORLD = [None]
+LIVE = weakref.WeakSet()     # proxies (hence real connections) that somebody still refers to
+QUERY_RE = re.compile(r'(\s|--[^\n]*\n|/\*.*?\*/)*\(*\s*(SELECT|WITH|VALUES)\b', re.I | re.S)
+RENAME_RE = re.compile(r'ALTER\s+TABLE\s+(\S+)\s+RENAME\s+TO\s+(\S+?)\s*;?\s*$', re.I)
 
 
 class SimAbort(Exception):
@@ -85,8 +96,11 @@ class World(object):
     self.retained = []
 
   def release(self):
-    for p in self.retained:
-      p.close()
+    for e in self.retained:
+      if isinstance(e, BaseException):
+        traceback.clear_frames(e.__traceback__)
+      else:
+        e.close()
     self.retained = []
 
   def fault_at(self, kind, k):
@@ -100,14 +114,46 @@ SYSTEM_TABLES = ('sqlite_master', 'sqlite_temp_master', 'sqlite_schema', 'sqlite
 
 
 class Proxy(object):
+  """Stands for a sqlite3.Connection. How long it lives is the business of the system under
+  test: the harness keeps no reference beyond the run, the real connection closes when the
+  proxy is released (or closed), exactly as a sqlite3.Connection would."""
+
   def __init__(self, world, orig_connect, database=':memory:'):
-    self.w = world
+    self._w = world
     world.connections += 1
     self.conn_id = world.connections
     self.c = orig_connect(database)
     self.c.execute('PRAGMA busy_timeout=0')
-    self.c.set_authorizer(self._auth)
+    me = weakref.ref(self)      # no reference cycle through the callback: release = close
+
+    def auth(action, a1, a2, db, src):
+      p = me()
+      return p._auth(action, a1, a2, db, src) if p is not None else sqlite3.SQLITE_OK
+    self.c.set_authorizer(auth)
     self.closed = False
+    LIVE.add(self)
+
+  @property
+  def w(self):
+    return CURRENT_WORLD[0] or self._w
+
+  def __getattr__(self, name):
+    # anything of the sqlite3.Connection interface that the proxy does not observe
+    return getattr(self.__dict__['c'], name)
+
+  def __enter__(self):
+    return self
+
+  def __exit__(self, et, ev, tb):
+    # sqlite3.Connection as a context manager: commit, or roll back on an exception
+    if et is None:
+      self.c.commit()
+    else:
+      self.c.rollback()
+    return False
+
+  def rollback(self):
+    self.c.rollback()
 
   # ---- observation
   def _auth(self, action, a1, a2, db, src):
@@ -168,13 +214,14 @@ class Proxy(object):
         return 1 if left[0] <= 0 else 0
       self.c.set_progress_handler(guard, 100000)
     w.current = st
+    m = RENAME_RE.search(sql.strip())
     try:
       try:
         if fetch:
           cur = self.c.execute(sql)
           rows = cur.fetchall()
           st.nrows = len(rows)
-          st.result = ([d[0] for d in cur.description], [list(x) for x in rows])
+          st.result = ([d[0] for d in cur.description or ()], [list(x) for x in rows])
           result = (cur.description, rows)
         else:
           # one statement of a script: the caller (executescript below) has put the connection
@@ -206,6 +253,12 @@ class Proxy(object):
         raise
     finally:
       w.current = None
+      if m and st.error is None:
+        # a table that is renamed into place is written by this statement
+        old, new = m.group(1).strip('"`'), m.group(2).strip('"`')
+        db = old.split('.')[0] if '.' in old else 'main'
+        st.drops.add('%s.%s' % (db, old.split('.')[-1]))
+        st.creates.add('%s.%s' % (db, new.split('.')[-1]))
       if f2 or w.step_budget:
         self.c.set_progress_handler(None, 1)
       if w.locker is not None:
@@ -236,7 +289,9 @@ class Proxy(object):
     if params:
       return self.c.execute(sql, *params)
     desc, rows = self._run_one(sql, fetch=True)
-    self.w.statements[-1].final = True
+    # the result statement of a run is a query; housekeeping sent through execute()
+    # (PRAGMA, DETACH, ...) is an ordinary statement
+    self.w.statements[-1].final = bool(QUERY_RE.match(sql))
     return Result(desc, rows)
 
   def executescript(self, script):
@@ -278,23 +333,59 @@ class Result(object):
 
 
 class Cursor(object):
+  """Stands for a sqlite3.Cursor."""
+  arraysize = 1
+  rowcount = -1
+  lastrowid = None
+
   def __init__(self, proxy):
     self.p = proxy
     self.r = None
+    self._pos = 0
+
+  @property
+  def connection(self):
+    return self.p
 
   def executescript(self, script):
     self.p.executescript(script)
+    return self
 
-  def execute(self, sql):
-    self.r = self.p.execute(sql)
+  def execute(self, sql, *params):
+    self.r = self.p.execute(sql, *params)
+    self._pos = 0
+    return self
+
+  def executemany(self, sql, seq):
+    self.p.c.executemany(sql, seq)
     return self
 
   def fetchall(self):
-    return self.r.fetchall()
+    rows = self.r.fetchall()[self._pos:]
+    self._pos += len(rows)
+    return rows
+
+  def fetchone(self):
+    rows = self.r.fetchall()
+    if self._pos < len(rows):
+      self._pos += 1
+      return rows[self._pos - 1]
+    return None
+
+  def fetchmany(self, size=None):
+    rows = self.r.fetchall()[self._pos:self._pos + (size or self.arraysize)]
+    self._pos += len(rows)
+    return rows
+
+  def __iter__(self):
+    return iter(self.fetchall())
+
+  def close(self):
+    self.r = None
 
   @property
   def description(self):
-    return self.r.description
+    return self.r.description if self.r is not None else None
 
 
 class Installed(object):
@@ -307,6 +398,8 @@ class Installed(object):
 
   def __enter__(self):
     self.orig = self.mod.SqliteConnect
+    self.prev_world = CURRENT_WORLD[0]
+    CURRENT_WORLD[0] = self.world
 
     def factory(database=':memory:'):
       p = Proxy(self.world, self.orig, database)
@@ -317,14 +410,20 @@ class Installed(object):
 
   def __exit__(self, *a):
     self.mod.SqliteConnect = self.orig
-    if self.world.retain_connections and a and a[0] is not None:
-      # the failed run's connection stays referenced (an exception kept by a notebook or a
-      # test harness keeps it alive); the caller releases it later with world.release()
-      self.world.retained.extend(self.proxies)
-      self.proxies = []
-      return False
-    for p in self.proxies:
-      p.close()
+    CURRENT_WORLD[0] = self.prev_world
+    exc = a[1] if a else None
+    if exc is not None:
+      if self.world.retain_connections:
+        # whoever caught the exception keeps it (a notebook's sys.last_value, a test harness)
+        # and with its frames the failed run's connection; released later by world.release()
+        self.world.retained.append(exc)
+      else:
+        # nobody keeps the exception: the frames of the failed run go, and with them
+        # whatever connection only they referred to
+        traceback.clear_frames(exc.__traceback__)
+    # the harness keeps no connection alive: a connection the system under test has dropped
+    # closes now (pending transaction rolled back), one it still holds stays open
+    self.proxies = []
     return False
 
 
